@@ -33,6 +33,8 @@ LAYOUTS = {
     "passthru": [],
     # a key that a no-repeat mapping taps (pressed and released in ONE write) is also the repeat key of another mapping
     "tapchord": [M(["A"], ["C"], D), M(["B"], ["D"], S(["C"], 4, 2))],
+    # boundary values of the repeat timing: no delay, no interval, a long delay
+    "zerorep": [M(["B"], ["D"], S(["C"], 0, 1)), M(["A"], ["A"], S(["C", "E"], 1, 0)), M(["S"], ["S"], S(["C"], 1000000, 1000000))],
 }
 # a burst of nine different keys going down at once (then e.g. the tablet switch turns on: one release batch of nine events)
 NINE = ["P:1", "P:2", "P:3", "P:4", "P:5", "P:6", "P:7", "P:8", "P:9"]
@@ -214,7 +216,8 @@ SCENARIOS = {
     # a key tapped inside one write, a tablet episode, then a repeat whose chord is that key
     "C06": [("tapchord", "P:A R:A On Off P:B to to R:B"), ("tapchord", "P:A R:A On P:Z Off P:B to to"), ("tapchord", "P:B to R:B P:A R:A Off P:B to to")],
     # ... and a pass-through key that a Special mapping lifted is released while the repeat runs; a key an active mapping outputs is pressed
-    "C11": [("tapchord", "P:A R:A P:B to to R:B P:A R:A P:B to"), ("basic", "P:Z P:S to R:Z to to"), ("basic", "P:Z P:S to to R:S to R:Z"), ("basic", "P:A P:S to P:B to to")],
+    "C11": [("tapchord", "P:A R:A P:B to to R:B P:A R:A P:B to"), ("basic", "P:Z P:S to R:Z to to"), ("basic", "P:Z P:S to to R:S to R:Z"), ("basic", "P:A P:S to P:B to to"),
+            ("zerorep", "P:B to to to R:B"), ("zerorep", "P:A to to R:A P:B to"), ("zerorep", "P:S to R:S P:B to to")],
     "C12": [("tapchord", "P:A R:A On Off P:B to to R:B")],
 }
 
